@@ -26,6 +26,8 @@
 
 static sb_bool_t sb_i_is_segment_descending_vertically(
     const sb_trajectory_segment_t* segment, float threshold);
+static float sb_i_get_first_touching_point(
+    const sb_poly_t* poly, float value, float rel_t);
 
 /**
  * \brief Initializes a trajectory statistics calculator with sane defaults.
@@ -140,6 +142,9 @@ sb_error_t sb_trajectory_stats_calculator_run(
             /* If we are calculating the takeoff time, check whether we have
              * now reached the takeoff altitude */
             if (sb_poly_touches(&segment->poly.z, takeoff_altitude, &rel_t)) {
+                /* sb_poly_touches() returns an arbitrary touching point but
+                 * we need the first one */
+                rel_t = sb_i_get_first_touching_point(&segment->poly.z, takeoff_altitude, rel_t);
                 result->earliest_above_sec = segment->start_time_sec + rel_t * segment->duration_sec;
 
                 /* Also clear the flag so we don't keep on checking */
@@ -287,4 +292,29 @@ static sb_bool_t sb_i_is_segment_descending_vertically(
         start.z >= segment->end.z
         /* clang-format on */
     );
+}
+
+/**
+ * \brief Returns the first point in the [0; 1] interval where the polynomial
+ * takes the given value, given an arbitrary such point.
+ *
+ * \param poly   the polynomial
+ * \param value  the value to look for
+ * \param rel_t  a point in [0; 1] where the polynomial takes the given value
+ */
+static float sb_i_get_first_touching_point(
+    const sb_poly_t* poly, float value, float rel_t)
+{
+    float roots[SB_MAX_POLY_COEFFS];
+    uint8_t i, num_roots = 0;
+
+    if (rel_t > 0 && sb_poly_solve(poly, value, roots, &num_roots) == SB_SUCCESS) {
+        for (i = 0; i < num_roots; i++) {
+            if (roots[i] >= 0 && roots[i] < rel_t) {
+                rel_t = roots[i];
+            }
+        }
+    }
+
+    return rel_t;
 }
